@@ -97,6 +97,10 @@ func execute(p *core.Property, r *core.Run) {
 				os.Exit(2)
 			}
 			st := string(debug.Stack())
+			if !core.PanicInLibrary(st) {
+				fmt.Fprintf(os.Stderr, "HARNESS-ERROR property=%s run=%d: panic in harness code: %v\n%s\n", p.ID, r.Index, e, clipStack(st))
+				os.Exit(2)
+			}
 			if r.V == nil {
 				r.V = &core.Violation{Class: "panic", Key: panicKey(e, st), Detail: fmt.Sprintf("panic: %v\n%s", e, clipStack(st))}
 			}
